@@ -275,6 +275,14 @@ def apply_edit(wire, e):
         parts.insert(i, UNK_NC)
     elif op == 'insc':
         parts.insert(i, UNK_C)
+    elif op == 'svneg':
+        k = kids[i]
+        value = ecdsa_twin(wire[k[2]:k[3]])
+        if value is None:
+            return None
+        parts[i] = st.write_var(k[0]) + st.write_var(len(value)) + value
+        out = rebuild(outer[0], parts)
+        return fix_digest(out) if outer[0] == 5 else out
     elif op in ('svext1', 'svext4', 'svcut1'):
         # the forger's edit: only the signature VALUE changes; every length and the parameters digest are recomputed
         k = kids[i]
@@ -286,6 +294,21 @@ def apply_edit(wire, e):
     else:
         raise MachineryError('unknown edit %r' % op)
     return rebuild(outer[0], parts)
+
+
+P256_N = 0xFFFFFFFF00000000FFFFFFFFFFFFFFFFBCE6FAADA7179E84F3B9CAC2FC632551
+
+
+def ecdsa_twin(der):
+    """(r, s) -> (r, n - s) for a P-256 DER signature (None if it is not one)"""
+    from Cryptodome.Util.asn1 import DerSequence
+    try:
+        r, s_ = DerSequence().decode(der)[:]
+    except Exception:  # noqa
+        return None
+    if not (0 < s_ < P256_N) or len(der) > 72:
+        return None
+    return DerSequence([r, P256_N - s_]).encode()
 
 
 def fix_digest(wire):
@@ -309,6 +332,9 @@ def edits(ctx, cfg, exp, b, ver, rep_base):
             continue
         o = outcome(cfg, ver, t)
         n += 1
+        if e['op'] == 'svneg':
+            ctx.extra['ecdsa_twin_signatures'] = ctx.extra.get('ecdsa_twin_signatures', 0) + 1
+            ctx.extra['ecdsa_twin_accepted'] = ctx.extra.get('ecdsa_twin_accepted', 0) + bool(o['sigacc'])
         judge_outcome(ctx, cfg, o, e['sig'], e['dig'], 'edit-%s-%s' % (e['lvl'], e['op']),
                       'signature-value' if e['op'].startswith('sv') else
                       'covered' if e['sig'] == 'reject' else ('digest-covered' if e['dig'] == 'fail' else 'uncovered'),
@@ -331,7 +357,8 @@ def run(ctx):
                 'once per (configuration, region or edit)')
     ctx.assumptions = ['unforgeability of SHA-256 / HMAC / RSA / ECDSA / Ed25519 (PyCryptodome) is assumed, not explored',
                        'sha256_digest_checker is judged on packets whose SignatureType is DigestSha256 (it passes other types by design)',
-                       'a verifier that raises has not accepted']
+                       'a verifier that raises has not accepted',
+                       'ECDSA twin signatures (r, n-s) are outside the clause (no low-s rule in NDN); enumerated with verdict either, counted in evidence']
     scale = ctx.pick(1, 2)
     pool = pk.Pool(ctx.rng)
     if 'A' in ctx.stages:
@@ -751,6 +778,8 @@ def record(ctx, cfg, pool, live=None, ntamper=14, hold=None):
     """Stage C: build, observe the parser's ranges as offsets, tamper at random offsets, record outcomes.
     live: (signer object, key locator) of a signer that is being reused. The record gets rec['own'] = the fresh
     packet verifies (library verifier and PyCryptodome directly) over exactly its own signed portion."""
+    if cfg['kind'] == 'interest' and any(c['t'] == pk.T_PD and c['l'] != 32 for c in cfg['name']):
+        return None                      # a digest placeholder of a wrong length: C01's finding
     b = pk.build(cfg, ctx.rng, pool, target=False, live=live)
     if b.rec is not None and b.rec.actual is not None and cfg['sg']['kind'] == 'ecdsa':
         cfg['sg']['a'] = b.rec.actual
